@@ -1466,6 +1466,8 @@ class FileHashStore(HashStore):
         try:
             self._synchronize_referenced_locked_pids(pid)
             self._synchronize_object_locked_cids(cid)
+            # Only references created by this call may be reverted if it fails
+            pid_refs_created = False
 
             try:
                 # Prepare files and paths
@@ -1517,6 +1519,7 @@ class FileHashStore(HashStore):
                     self.fhs_logger.debug(debug_msg)
                     # Move the pid refs file
                     pid_tmp_file_path = self._write_refs_file(tmp_root_path, cid, "pid")
+                    pid_refs_created = True
                     shutil.move(pid_tmp_file_path, pid_refs_path)
                     # Update cid ref files as it already exists
                     if not self._is_string_in_refs_file(pid, cid_refs_path):
@@ -1535,6 +1538,7 @@ class FileHashStore(HashStore):
                 # Move both files after checking the existing status of refs files
                 pid_tmp_file_path = self._write_refs_file(tmp_root_path, cid, "pid")
                 cid_tmp_file_path = self._write_refs_file(tmp_root_path, pid, "cid")
+                pid_refs_created = True
                 shutil.move(pid_tmp_file_path, pid_refs_path)
                 shutil.move(cid_tmp_file_path, cid_refs_path)
                 log_msg = "Refs files have been moved to their permanent location. Verifying refs."
@@ -1555,7 +1559,8 @@ class FileHashStore(HashStore):
                 # much as possible. No exceptions from the reverting process will be thrown.
                 err_msg = f"Unexpected exception: {ue}, reverting tagging process (untag obj)."
                 self.fhs_logger.error(err_msg)
-                self._untag_object(pid, cid)
+                if pid_refs_created:
+                    self._untag_object(pid, cid)
                 raise ue
 
         finally:
